@@ -261,9 +261,9 @@ def _deco_node(path, l):
 DECOS = {"property": {"property"}, "staticmethod": {"staticmethod"}, "classmethod": {"classmethod"}, "functools.cache": {"cached"},
          "functools.cached_property": {"cached", "property"}, "abc.abstractmethod": {"abstractmethod"}}
 
-KINDS = ["def", "adef", "def_doc", "class", "class_doc", "class_def", "class_assign", "class_init", "assign", "annassign", "ann_only", "assign_doc", "import", "importfrom",
+KINDS = ["def", "adef", "def_doc", "class", "class_doc", "class_def", "class_assign", "class_init", "class_init_if", "class_init_again", "assign", "annassign", "ann_only", "assign_doc", "import", "importfrom",
          "tc_assign", "tc_import", "if_assign", "else_assign", "try_assign", "for_assign", "with_assign", "all", "all_plus"] + ["deco:" + d for d in DECOS]
-KINDS_Q = ["def", "def_doc", "class_def", "class_init", "assign", "annassign", "assign_doc", "import", "importfrom", "tc_assign", "if_assign", "try_assign", "for_assign", "all",
+KINDS_Q = ["def", "def_doc", "class_def", "class_init", "class_init_if", "assign", "annassign", "assign_doc", "import", "importfrom", "tc_assign", "if_assign", "try_assign", "for_assign", "all",
            "deco:property", "deco:functools.cache", "adef", "class_doc"]
 
 
@@ -273,6 +273,10 @@ def height(kind, x):
         return 2 + x
     if kind in ("def_doc", "class_doc", "class_def", "class_init") or kind.startswith("deco:"):
         return 3 + x
+    if kind == "class_init_if":
+        return 5 + x
+    if kind == "class_init_again":
+        return 4 + x
     if kind == "else_assign":
         return 4 + x
     if kind == "try_assign":
@@ -319,6 +323,23 @@ def build_slot(kind, n, inner, l, x, doc):
         members = {"__init__": dict(kind="function", lineno=l + 1, endlineno=e)}
         members_attr = dict(kind="attribute", lineno=e, endlineno=e, labels={"instance-attribute"})
         ev.append(dict(name=n, kind="class", lineno=l, endlineno=e, labels=set(), doc=None, members=members, init_attr=(inner, members_attr)))
+    elif kind in ("class_init_if", "class_init_again"):
+        # class n:            (l)
+        #     <inner> = 0     (l+1)   class-level attribute
+        #     def __init__(self):  (l+2)
+        #         [if cond:]       (l+3, class_init_if only)
+        #             self.<inner> = 1   (e)  conditional: does not displace / unconditional: the later binding wins
+        tgt = _at(ast.Attribute(value=_name("self", e), attr=inner, ctx=ast.Store()), e)
+        self_assign = _at(ast.Assign(targets=[tgt], value=_const(1, e), type_comment=None), e)
+        body = [_at(ast.If(test=_name("cond", l + 3), body=[self_assign], orelse=[]), l + 3, e)] if kind == "class_init_if" else [self_assign]
+        init = _funcdef(ast.FunctionDef, "__init__", l + 2, e, body, with_self=True)
+        st = [_classdef(n, l, e, [_assign(inner, l + 1), init])]
+        members = {"__init__": dict(kind="function", lineno=l + 2, endlineno=e)}
+        if kind == "class_init_if":
+            win = dict(kind="attribute", lineno=l + 1, endlineno=l + 1)
+        else:
+            win = dict(kind="attribute", lineno=e, endlineno=e)
+        ev.append(dict(name=n, kind="class", lineno=l, endlineno=e, labels=set(), doc=None, members=members, init_attr=(inner, win)))
     elif kind == "assign":
         st = [_assign(n, l, e)]
         ev.append(dict(name=n, kind="attribute", lineno=l, endlineno=e, labels={"module-attribute"}, doc=None, value="0"))
@@ -602,6 +623,10 @@ def render_source(kinds, names, inner, l1, xs, gaps, doc):
             put(l, f"class {n}:"); put(e, f"    {inner} = 0")
         elif k == "class_init":
             put(l, f"class {n}:"); put(l + 1, "    def __init__(self):"); put(e, f"        self.{inner} = 0")
+        elif k == "class_init_if":
+            put(l, f"class {n}:"); put(l + 1, f"    {inner} = 0"); put(l + 2, "    def __init__(self):"); put(l + 3, "        if cond:"); put(e, f"            self.{inner} = 1")
+        elif k == "class_init_again":
+            put(l, f"class {n}:"); put(l + 1, f"    {inner} = 0"); put(l + 2, "    def __init__(self):"); put(e, f"        self.{inner} = 1")
         elif k in ("assign", "annassign"):
             lhs = n if k == "assign" else f"{n}: int"
             if e == l:
